@@ -104,7 +104,14 @@ package analyzer
 //@   props C18
 //@   requires tx != nil && declared != nil
 //@   ensures [only_undeclared] forall i int :: 0 <= i && i < len(result) ==> result[i].Code == "UNDECLARED_COMMODITY" && result[i].Severity == 1
+//@   ensures [C18:once_per_commodity] len(result) == len(seen)
+//@   ensures [C18:only_undeclared_symbols] forall s string :: has(seen, s) ==> s != "" && !declared[s]
+//@   ensures [C18:every_undeclared_use] forall j int :: {tx.Postings[j]} 0 <= j && j < len(tx.Postings) ==> (tx.Postings[j].Amount != nil && tx.Postings[j].Amount.Commodity.Symbol != "" && !declared[tx.Postings[j].Amount.Commodity.Symbol] ==> has(seen, tx.Postings[j].Amount.Commodity.Symbol)) && (tx.Postings[j].Cost != nil && tx.Postings[j].Cost.Amount.Commodity.Symbol != "" && !declared[tx.Postings[j].Cost.Amount.Commodity.Symbol] ==> has(seen, tx.Postings[j].Cost.Amount.Commodity.Symbol)) && (tx.Postings[j].BalanceAssertion != nil && tx.Postings[j].BalanceAssertion.Amount.Commodity.Symbol != "" && !declared[tx.Postings[j].BalanceAssertion.Amount.Commodity.Symbol] ==> has(seen, tx.Postings[j].BalanceAssertion.Amount.Commodity.Symbol))
+//@   loop 1 modifies seen[*]
 //@   loop 1 invariant 0 - 1 <= rangeindex && seen != nil && fresh(seen) && (forall i int :: 0 <= i && i < len(diags) ==> diags[i].Code == "UNDECLARED_COMMODITY" && diags[i].Severity == 1)
+//@   loop 1 invariant len(diags) == len(seen)
+//@   loop 1 invariant forall s string :: has(seen, s) ==> s != "" && !declared[s]
+//@   loop 1 invariant forall j int :: {tx.Postings[j]} 0 <= j && j <= rangeindex ==> (tx.Postings[j].Amount != nil && tx.Postings[j].Amount.Commodity.Symbol != "" && !declared[tx.Postings[j].Amount.Commodity.Symbol] ==> has(seen, tx.Postings[j].Amount.Commodity.Symbol)) && (tx.Postings[j].Cost != nil && tx.Postings[j].Cost.Amount.Commodity.Symbol != "" && !declared[tx.Postings[j].Cost.Amount.Commodity.Symbol] ==> has(seen, tx.Postings[j].Cost.Amount.Commodity.Symbol)) && (tx.Postings[j].BalanceAssertion != nil && tx.Postings[j].BalanceAssertion.Amount.Commodity.Symbol != "" && !declared[tx.Postings[j].BalanceAssertion.Amount.Commodity.Symbol] ==> has(seen, tx.Postings[j].BalanceAssertion.Amount.Commodity.Symbol))
 //@   loop 1 decreases len(tx.Postings) - rangeindex
 
 // ---- C15: name lists gathered over an include tree are a function of the tree (no dependence on map order) ----
@@ -188,8 +195,19 @@ package analyzer
 //@   ensures forall k string :: {has(result, k)} has(result, k) <==> tcJ(journal, k) > 0
 //@ trusted validateDateTags
 //@   ensures fresh(result) || len(result) == 0
-//@ trusted checkUndeclaredAccounts
-//@   ensures fresh(result) || len(result) == 0
+// One warning per posting whose account is undeclared (the rule of isAccountDeclared), in posting order, on the posting.
+//@ specdef undecl(name string, declared map[string]bool) bool := !predefinedAccountTypes[topOf(name)] && !declared[name] && (forall d string :: has(declared, d) ==> !hasprefix(name, concat(d, ":")))
+//@ specdef undC(ps []ast.Posting, i int, declared map[string]bool) int := ite(i <= 0, 0, undC(ps, i - 1, declared) + ite(undecl(ps[i - 1].Account.Name, declared), 1, 0))
+//@ lemma undC_nonneg(ps []ast.Posting, i int, declared map[string]bool) induct i := {undC(ps, i, declared)} undC(ps, i, declared) >= 0
+//@ lemma undC_lt(ps []ast.Posting, j int, i int, declared map[string]bool) induct i := {undC(ps, j, declared); undC(ps, i, declared)} 0 <= j && j < i && undecl(ps[j].Account.Name, declared) ==> undC(ps, j, declared) < undC(ps, i, declared)
+//@ func checkUndeclaredAccounts
+//@   props C18
+//@   requires tx != nil && declared != nil
+//@   ensures [C18:one_per_undeclared_posting] len(result) == undC(tx.Postings, len(tx.Postings), declared)
+//@   ensures [C18:on_the_posting] forall j int :: {tx.Postings[j]} 0 <= j && j < len(tx.Postings) && undecl(tx.Postings[j].Account.Name, declared) ==> result[undC(tx.Postings, j, declared)].Range == tx.Postings[j].Range && result[undC(tx.Postings, j, declared)].Code == "UNDECLARED_ACCOUNT" && result[undC(tx.Postings, j, declared)].Severity == 1
+//@   loop 1 invariant 0 - 1 <= rangeindex && rangeindex <= len(tx.Postings) - 1 && len(diags) == undC(tx.Postings, rangeindex + 1, declared)
+//@   loop 1 invariant forall j int :: {tx.Postings[j]} 0 <= j && j <= rangeindex && undecl(tx.Postings[j].Account.Name, declared) ==> diags[undC(tx.Postings, j, declared)].Range == tx.Postings[j].Range && diags[undC(tx.Postings, j, declared)].Code == "UNDECLARED_ACCOUNT" && diags[undC(tx.Postings, j, declared)].Severity == 1
+//@   loop 1 decreases len(tx.Postings) - rangeindex
 
 //@ func (*Analyzer).analyzeInternal
 //@   props C18 C02
